@@ -6,6 +6,23 @@ import sys
 
 from vf import env, linecov
 
+import ast
+
+
+def stmt_lines(path):
+    """first lines of statements inside function bodies (module / class level code runs at import, before monitoring)"""
+    tree = ast.parse(open(path).read())
+    out = set()
+    for fn in ast.walk(tree):
+        if isinstance(fn, (ast.FunctionDef, ast.AsyncFunctionDef)):
+            for node in ast.walk(fn):
+                if isinstance(node, ast.stmt) and node is not fn and not isinstance(node, (ast.FunctionDef, ast.ClassDef)):
+                    if isinstance(node, ast.Expr) and isinstance(node.value, ast.Constant) and isinstance(node.value.value, str):
+                        continue
+                    out.add(node.lineno)
+    return out
+
+
 d = sys.argv[1]
 hits = {}
 for f in glob.glob(os.path.join(d, "*.json")):
@@ -19,7 +36,7 @@ for dp, _, fns in sorted(os.walk(root)):
             continue
         path = os.path.join(dp, fn)
         rel = os.path.relpath(path, root)
-        ex = linecov.executable_lines(path)
+        ex = stmt_lines(path)
         h = hits.get(rel, set())
         miss = sorted(ex - h)
         tot += len(ex)
